@@ -181,23 +181,18 @@ class DQN(RLAlgorithm):
 
     def init_hook(self) -> None:
         """Resets module parameters for the detached and target networks."""
-        param_vals: TensorDict = from_module(self.actor).detach()
-
-        # NOTE: This removes the target params from the computation graph which
-        # reduces memory overhead and speeds up training, however these won't
-        # appear in the modules parameters
-        target_params: TensorDict = param_vals.clone().lock_()
-
+        # NOTE: The target parameters are kept as (frozen) parameters of the target network so
+        # that they are soft updated, cloned and checkpointed like any other network weights
         # This hook is prompted after performing architecture mutations on policy / evaluation
         # networks, which will fail since the target network is a shared network that won't be
         # reintiialized until the end. We can bypass the error safely for this reason.
         try:
-            target_params.to_module(self.actor_target)
-        except KeyError:
+            self.actor_target.load_state_dict(self.actor.state_dict())
+        except RuntimeError:
             pass
-        finally:
-            self.param_vals = param_vals
-            self.target_params = target_params
+
+        for param in self.actor_target.parameters():
+            param.requires_grad_(False)
 
     def get_action(
         self,
